@@ -27,7 +27,7 @@ def run(ctx):
     if getattr(ctx, "build_only", False):
         return
     # free-running ThreadSanitizer companion first (short): guards the 'sync points are sufficient' assumption
-    ctx.run_harness(exes["h19tsan"], ["--iterations", "30" if ctx.tier == "quick" else "300"],
+    ctx.run_harness(exes["h19tsan"], ["--iterations", "30" if ctx.tier == "quick" else "300", "--deadline", "40" if ctx.tier == "quick" else "300"],
                     env={"TSAN_OPTIONS": "halt_on_error=0:exitcode=66:suppressions=" + os.path.join(os.path.dirname(os.path.dirname(ctx.checkdir)), "engine", "vsched", "tsan.supp")}, timeout=120)
     spin_layer(ctx, exes["h19"])          # Promela layer first (bounded share of the deadline), then the deep exploration takes the rest
     ctx.run_harness(exes["h19"], [])
